@@ -789,6 +789,8 @@ class Interp:
                     if r:
                         return I(-a[2] - 1, -a[1] - 1)
                 return top_of(dst_ty)
+            if rv[1] == "Neg" and a[0] == "dig":
+                return ("dig", a[1], a[2], -a[3])      # symbolic digit token (LINCOMB domain): -d_i
             if rv[1] == "Neg":
                 if a[0] == "i":
                     r = INT_TYPES.get(dst_ty)
@@ -895,7 +897,10 @@ class Interp:
         if k in self._ipd:
             return self._ipd[k]
         n = fv.nb
-        succ = {b: [t for t, _ in fv.succ(b)] for b in range(n)}
+        dead_end = {b for b in range(n) if (fv.blocks[b].get("t") or {}).get("k") == "unreachable" and not fv.blocks[b]["s"]}
+        # `otherwise -> unreachable` arms of exhaustive matches are not paths: ignoring them keeps the join point of a match at the end
+        # of the match instead of the function exit
+        succ = {b: [t for t, _ in fv.succ(b) if t not in dead_end] for b in range(n)}
         exits = [b for b in range(n) if not succ[b]]
         EXIT = n
         pred = {b: [] for b in range(n + 1)}
@@ -1142,6 +1147,24 @@ class Interp:
                 rets = ret
                 base = st.copy()
                 seen_t = set()
+                # early-return arms inside a loop (`?`, `return Err(..)`): run each such arm to the function's return and keep following the
+                # single staying arm, instead of sending the whole loop to the fixpoint engine
+                inloop0 = [h for h, body in L.items() if cur in body]
+                if inloop0 and not loopctx.get("in_fix") and len(feas) >= 2:
+                    body0 = L[max(inloop0, key=lambda h: -len(L[h]))]
+                    exits_ = [(v, tb) for v, tb in feas if self.cheap_return_arm(fv, tb, body0)]
+                    stays = [(v, tb) for v, tb in feas if (v, tb) not in exits_]
+                    if exits_ and len({tb for _, tb in stays}) == 1:
+                        for v, tb in exits_:
+                            s2 = base.copy()
+                            self.refine_switch(s2, depth, fv, t, v)
+                            r = self.run_region(fv, s2, depth, tb, None, loopctx)
+                            if r is not None:
+                                ret = join(ret, r) if ret is not None else r
+                        for v, tb in stays:
+                            self.refine_switch(st, depth, fv, t, v)
+                        cur = stays[0][1]
+                        continue
                 for v, tb in feas:
                     if tb in seen_t and v != "otherwise":
                         continue
@@ -1242,6 +1265,28 @@ class Interp:
             else:
                 frame["__dead"] = True
                 return ret
+
+    def cheap_return_arm(self, fv, tb, body, limit=10):
+        """does every path from block tb reach the function's return within `limit` blocks, never re-entering the loop body, through
+        straight-line code (drops, gotos, calls to non-local or tiny functions)?"""
+        seen, todo = set(), [tb]
+        while todo:
+            b = todo.pop()
+            if b in seen:
+                continue
+            seen.add(b)
+            if b in body or len(seen) > limit:
+                return False
+            t = fv.blocks[b].get("t")
+            if not t:
+                return False
+            if t["k"] == "return":
+                continue
+            if t["k"] in ("unreachable", "resume", "terminate"):
+                continue
+            for nb, _ in fv.succ(b):
+                todo.append(nb)
+        return True
 
     def feasible_arms(self, st, depth, fv, t):
         """[(value | 'otherwise', target block)] of a SwitchInt that the abstract discriminant allows"""
